@@ -33,6 +33,9 @@ class EpisodeLedger:
         self.sum_paid = 0.0
         self.sum_cost = 0.0
         self.max_status = None
+        # discovery as the episode history defines it: public hosts at
+        # reset, then the hosts covered by every successful subnet scan
+        self.hist_disc = {a for a in cfg.order if cfg.public(a[0])}
 
 
 def _uniform_draws(log):
@@ -56,6 +59,45 @@ class Oracles:
 
     def probe(self, name):
         self.sim.counters.hit("probe." + name)
+
+    # ------------------------------------------------------------------
+    def act(self, obj):
+        """The action as the *scenario source* defines it: type, target and
+        name come from the Action object the environment executes; service /
+        process, OS, probability, cost and granted access of an exploit or
+        escalation come from the source's definition of that name."""
+        a = act_of(obj)
+        cfg = self.cfg
+        if a.kind == "exploit" and a.name in cfg.exploits:
+            e = cfg.exploits[a.name]
+            a = a._replace(service=e["service"], os=e["os"],
+                           prob=float(e["prob"]), cost=e["cost"],
+                           access=int(e["access"]))
+        elif a.kind == "privesc" and a.name in cfg.privescs:
+            e = cfg.privescs[a.name]
+            a = a._replace(process=e["process"], os=e["os"],
+                           prob=float(e["prob"]), cost=e["cost"],
+                           access=int(e["access"]))
+        elif a.kind in cfg.scan_cost:
+            a = a._replace(prob=1.0, cost=cfg.scan_cost[a.kind])
+        return a
+
+    def pre_of(self, state):
+        """Status and tensor copy of a state object, read once per object: a
+        State is never legitimately modified after it was produced, so a
+        later transition from the same object is judged against what the
+        object held when the simulator first saw it (look-ahead that writes
+        into its argument cannot launder the pre-state)."""
+        cache = self.sim.__dict__.setdefault("_pre_cache", {})
+        ent = cache.get(id(state))
+        if ent is not None and ent[0] is state:
+            return ent[1], ent[2]
+        st = sim_read(self.sim, state)
+        t = state.tensor.copy()
+        if len(cache) > 64:
+            cache.clear()
+        cache[id(state)] = (state, st, t)
+        return st, t
 
     # ------------------------------------------------------------------
     # reset
@@ -115,9 +157,8 @@ class Oracles:
         """Run generative_step(state, x) under scripted draws and check the
         transition-level clauses.  Returns the record."""
         sim, cfg, env = self.sim, self.cfg, self.sim.env
-        act = act_of(obj)
-        pre = sim_read(sim, state)
-        pre_t = state.tensor.copy()
+        act = self.act(obj)
+        pre, pre_t = self.pre_of(state)
         snap = None
         if self.P("C13"):
             snap = (env.current_state.tensor.tobytes(),
@@ -139,9 +180,10 @@ class Oracles:
     # ------------------------------------------------------------------
     # a real step (with twins and companion generative step)
     # ------------------------------------------------------------------
-    def real_step(self, obj, x, plain, draws, interpose=None):
+    def real_step(self, obj, x, plain, draws, interpose=None,
+                  doc_noop=False):
         sim, cfg, env = self.sim, self.cfg, self.sim.env
-        act = act_of(obj)
+        act = self.act(obj)
         cur = env.current_state
         plain_x = plain if sim.table.flat else list(plain)
         lo = hi = None
@@ -162,8 +204,7 @@ class Oracles:
                                 p2 if sim.table.flat else list(p2),
                                 [float.fromhex(h) for h in e["u"]],
                                 background=True, tag="interposed")
-        pre = sim_read(sim, cur)
-        pre_t = cur.tensor.copy()
+        pre, pre_t = self.pre_of(cur)
         sim.rnd.push(draws)
         try:
             out = env.step(x)
@@ -185,7 +226,8 @@ class Oracles:
                "post_t": env.current_state.tensor,
                "obs2d": self._as2d(obs_arr), "obs_out": obs_arr,
                "reward": reward, "done": done, "trunc": trunc, "info": info,
-               "real": True, "post": post, "tag": "step", "state_obj": cur}
+               "real": True, "post": post, "tag": "step", "state_obj": cur,
+               "doc_noop": doc_noop}
         sim.note_state(post)
         self._check_transition(rec)
         # ---- real-step-only clauses -----------------------------------
@@ -328,6 +370,16 @@ class Oracles:
     def _c01(self, rec):
         cfg = self.cfg
         act, pre, post = rec["act"], rec["pre"], rec["post"]
+        if rec.get("doc_noop"):
+            self.probe("documented_noop_vector")
+            for h in cfg.order:
+                if (pre[h][0], pre[h][3]) != (post[h][0], post[h][3]):
+                    self.fail("C01.scan-noop", "a parameter vector naming an "
+                              "undefined service/OS or process/OS "
+                              "combination (documented to be a no-op) "
+                              "changed compromised/access", host=h,
+                              before=pre[h], after=post[h],
+                              decoded=act._asdict())
         for h in cfg.order:
             if (pre[h][0], pre[h][3]) != (post[h][0], post[h][3]):
                 if act.kind not in ("exploit", "privesc"):
@@ -660,6 +712,20 @@ class Oracles:
                           "time in one episode", host=h,
                           action=rec["act"]._asdict())
             led.disc_paid.add(h)
+        if rec["act"].kind == "subnet_scan" and rec["success"] and \
+                self.cfg.symmetric:
+            D = model.scan_discovers(self.cfg, rec["act"].target)
+            first = [h for h in self.cfg.order
+                     if h in D and h not in led.hist_disc]
+            want_hist = sum(self.cfg.hosts[h]["discovery_value"]
+                            for h in first)
+            if not feq(value, want_hist):
+                self.fail("C05.once", "a discovery value must be paid by "
+                          "(and only by) the subnet scan that first "
+                          "discovers the host in this episode",
+                          action=rec["act"]._asdict(), value=value,
+                          expected=want_hist, first_discovered=first)
+            led.hist_disc |= D
         led.sum_reward += float(rec["reward"])
         led.sum_paid += float(want)
         led.sum_cost += float(self.cost_src(rec["act"]))
@@ -1260,6 +1326,29 @@ class Oracles:
         src = op.get("src", "cur")
         state = env.current_state if src == "cur" else sim.states.get(src)
         if state is None:
+            return
+        if what == "readonly":
+            # read-only public API calls as a disturbance: they must not
+            # change what the following steps do (any damage shows up in the
+            # ordinary clauses afterwards)
+            sim.counters.hit("fault.readonly_api_calls")
+            for fn in (env.get_minimum_hops, env.get_score_upper_bound,
+                       env.goal_reached,
+                       lambda: env.goal_reached(state),
+                       env.current_state.get_readable,
+                       env.last_obs.get_readable,
+                       env.scenario.get_description,
+                       lambda: str(env),
+                       lambda: env.get_action_mask() if sim.table.flat
+                       else None,
+                       lambda: env.network.get_total_discovery_value(),
+                       lambda: env.network.get_total_sensitive_host_value(),
+                       lambda: env.scenario.host_value_bounds,
+                       lambda: env.action_space.sample()):
+                try:
+                    fn()
+                except Exception:
+                    sim.counters.hit("readonly_api_raised")
             return
         if what == "goal" and self.P("C06"):
             st = sim_read(sim, state)
